@@ -33,12 +33,13 @@ UNIV = {
     "Chain": [(), (A,), (B,), (A, A), (A, A, A)],
     "Fork": [(), (A,), (B,), (A, A), (A, B), (B, A)],
 }
-CAUSE = {1: "stale-valid-path", 2: "duplicate-handle-copy"}
+CAUSE = {1: "stale-valid-path", 2: "duplicate-handle-copy", 3: "hole-above"}
 NAMED = {
     ("reg", "missing", 1): "reregister-after-invalidate:related-path-stays-unavailable",
     ("rel", "missing", 1): "relate-after-invalidate:related-copy-stays-unavailable",
     ("inv", "ghost", 2): "invalidate:duplicate-handle-copy-survives",
     ("inv", "raises:RecursionError", 2): "invalidate:RecursionError:duplicate-handle-copy",
+    ("inv", "ghost", 3): "invalidate:descendant-survives-below-already-invalid-child",
 }
 
 
@@ -114,7 +115,9 @@ def judge(ctx, c, hist, line, rp, exc, deep=True):
             {"no": "it must be unavailable", "reg": "it is registered there", "rel": "a related copy exists there"}[where[0][2]])
         ctx.violation(sig, dict(detail, cells=where), what)
     if deep:
-        exp_cell = lambda p, l: D.EXP[line["e"][cells.index((p, l))]]
+        # a cell already reported above is not reported a second time through get_source_location
+        reported = {(w[0], w[1]) for ws in bad.values() for w in ws}
+        exp_cell = lambda p, l: "any" if (D.pstr(p), l) in reported else D.EXP[line["e"][cells.index((p, l))]]
         for d in rp.listing_defects():
             good = False
             ctx.violation("listing:%s" % d[0], dict(detail, defect=list(d)), "get_data_locations is inconsistent: %s" % (d,))
@@ -126,6 +129,13 @@ def judge(ctx, c, hist, line, rp, exc, deep=True):
         if srow != line["s"]:
             ctx.count("asis_divergent_source_rows")
     return good
+
+
+def _model_causes(line):
+    """Root causes with which the as-is layer itself breaks the statement in this transition."""
+    if line["x"] != "none":
+        return {line["xc"]}             # after an exception only the exception is judged
+    return {x for x in line["c"] if x}
 
 
 def _fmt(op):
@@ -159,11 +169,12 @@ def replay_hist(ctx, sf, c, hist, line, deep=True, same_dep=False):
 
 def _edge_config(ctx, sf, c, deep_stride):
     name = conf_name(c)
-    r = ctx.tlc("DataManager", "MC_DataManager", "gen.cfg", files={"gen.cfg": cfg_text(c)}, coverage=True, timeout=3000)
+    r = ctx.tlc("DataManager", "MC_DataManager", "gen.cfg", files={"gen.cfg": cfg_text(c)}, timeout=3000)
     ctx.require(r.ok, "DataManager model (%s): %s %s is a specification error (the as-is layer breaks Match outside the "
                       "classified root causes)\n%s" % (name, r.error, r.violated, r.stdout[-1500:]))
-    ctx.require_coverage(r, ["RegisterPath", "RegisterRelation", "InvalidateLocation"])
     lines = [x for x in r.printed_json() if isinstance(x, dict) and "h" in x]
+    kinds = {k: sum(1 for x in lines if x["h"][-1][0] == k) for k in ("reg", "rel", "inv")}
+    ctx.require(all(kinds.values()), "vacuous model run (%s): transitions per operation %s" % (name, kinds))   # vacuity guard
     ctx.require(len(lines) == r.generated - 1, "%s: %d transitions emitted, %d generated" % (name, len(lines), r.generated - 1))
     ctx.count("edges:" + name, len(lines))
     seen = set()
@@ -172,8 +183,8 @@ def _edge_config(ctx, sf, c, deep_stride):
         key = (tuple(line["a"]), line["n"], tuple(line["e"]))
         deep = key not in seen or n % deep_stride == 0
         seen.add(key)
-        mv = [x for x in line["c"] if x] or ([line["xc"]] if line["xc"] else [])
-        for x in set(mv):
+        mv = _model_causes(line)
+        for x in mv:
             ctx.count("model_violating_transitions:%s" % CAUSE.get(x, x))
         ctx.case((name, json.dumps(hist)), nontrivial=True)
         replay_hist(ctx, sf, c, hist, line, deep, c.get("same_dep", False))
@@ -181,6 +192,16 @@ def _edge_config(ctx, sf, c, deep_stride):
             ctx.sample({"config": name, "ops": [_fmt(o) for o in hist], "expected": line["e"], "as_is": line["a"], "cause": line["c"]})
     ctx.impl_trace(len(lines))
     return len(lines)
+
+
+def _deep_config(ctx, c):
+    """Model only: deeper sequences than can be replayed one by one (same invariants, no emission)."""
+    name = conf_name(c)
+    r = ctx.tlc("DataManager", "MC_DataManager", "deep.cfg", files={"deep.cfg": cfg_text(c, nxt="Next")}, coverage=True, timeout=3000)
+    ctx.require(r.ok, "DataManager model (%s): %s %s is a specification error (the as-is layer breaks Match outside the "
+                      "classified root causes)\n%s" % (name, r.error, r.violated, r.stdout[-1500:]))
+    ctx.require_coverage(r, ["RegisterPath", "RegisterRelation", "InvalidateLocation"])
+    ctx.count("model_only_transitions:" + name, r.generated)
 
 
 def _random_traces(rng, c, n, length):
@@ -251,8 +272,7 @@ def _trace_config(ctx, sf, c, n, length, label):
                 break
             steps += 1
             ctx.case((name, json.dumps(hist)), nontrivial=True)
-            mv = [x for x in line["c"] if x] or ([line["xc"]] if line["xc"] else [])
-            for x in set(mv):
+            for x in _model_causes(line):
                 ctx.count("model_violating_transitions:%s" % CAUSE.get(x, x))
             ok = judge(ctx, c, list(hist), line, rp, exc, deep=True)
             if not ok or exc is not None:
@@ -268,17 +288,20 @@ async def _main(ctx):
     sf = C.build()
     try:
         edge = ctx.pick(
-            [conf("Flat", 1, False, 6), conf("Chain", 2, False, 3), conf("T2", 3, True, 2, types=("PRIMARY", "SYMLINK"))],
-            [conf("Flat", 2, False, 6), conf("Flat", 1, False, 7, relate_all=True), conf("Chain", 2, False, 5),
-             conf("Fork", 2, False, 4), conf("T2", 2, False, 4), conf("T2", 3, True, 3, types=("PRIMARY", "SYMLINK")),
+            [conf("Flat", 1, False, 5), conf("T2", 3, True, 2, types=("PRIMARY", "SYMLINK"))],
+            [conf("Flat", 2, False, 5), conf("Flat", 1, False, 6, relate_all=True), conf("Chain", 2, False, 4),
+             conf("Fork", 2, False, 4), conf("T2", 3, True, 3, types=("PRIMARY", "SYMLINK")),
              conf("T3", 3, True, 2, types=("PRIMARY", "SYMLINK"))])
         for c in edge:
             _edge_config(ctx, sf, c, ctx.pick(7, 3))
+        for c in ctx.pick([], [conf("Chain", 2, False, 5), conf("Flat", 1, False, 7, relate_all=True)]):
+            _deep_config(ctx, c)
         ctx.exhaustive = True
         big = conf("T3", 3, True, 99, types=("PRIMARY", "SYMLINK"))
         _trace_config(ctx, sf, big, ctx.pick(250, 4000), ctx.pick(7, 9), "wrap")
-        _trace_config(ctx, sf, dict(conf("T3", 3, False, 99, types=("PRIMARY", "SYMLINK")), same_dep=True),
-                      ctx.pick(150, 2000), ctx.pick(7, 9), "same-deployment")
+        if not ctx.quick:
+            _trace_config(ctx, sf, dict(conf("T3", 3, False, 99, types=("PRIMARY", "SYMLINK")), same_dep=True),
+                          2000, 9, "same-deployment")
     finally:
         await C.close(sf)
 
